@@ -173,6 +173,7 @@ def gen_plan(seed, index, tier):
     plan["ambient"] = [[rng.choice(["np_reseed", "np_consume", "torch_reseed"]), rng.randint(0, 2**31 - 1)] for _ in range(8)]
     plan["clock"] = [[rng.choice(["fwd", "fwd", "back", "stall"]), rng.choice([1e-3, 1.0, 100.0, 1e6])] for _ in range(60)]
     plan["fresh"] = bool(TIERS[tier].get("fresh_every") and index % TIERS[tier]["fresh_every"] == 0)
+    plan["edits"] = [rng.random() < 0.35 for _ in range(8)]
     return plan
 
 
@@ -285,10 +286,33 @@ def probe_set(plan, k):
     return np.array(ds["X"][:8], dtype=float), {}
 
 
-def observe(plan, est, k, seed):
+def shared_probe(plan, k, ctx):
+    """The caller's reusable query buffer for data set k: one object per run, possibly edited in place."""
+    cache = ctx.scratch.setdefault("probes", {})
+    if k not in cache:
+        cache[k] = probe_set(plan, k)
+    return cache[k]
+
+
+def reverse_probe_in_place(plan, k, ctx):
+    Xp, kw = shared_probe(plan, k, ctx)
+    if isinstance(Xp, pd.DataFrame):
+        Xp.iloc[:, :] = Xp.iloc[::-1].to_numpy()
+    else:
+        Xp[:] = Xp[::-1].copy()
+    if "sensitive_features" in kw:
+        kw["sensitive_features"][:] = kw["sensitive_features"][::-1].copy()
+
+
+def copy_probe(probe):
+    Xp, kw = probe
+    return (Xp.copy(), {a: (v.copy() if hasattr(v, "copy") else v) for a, v in kw.items()})
+
+
+def observe(plan, est, k, seed, probe=None):
     """Predict-type answers + key fitted attributes, as one canonical structure."""
     cls = plan["cls"]
-    Xp, kw = probe_set(plan, k)
+    Xp, kw = probe if probe is not None else probe_set(plan, k)
     out = {}
     if cls == "TO":
         out["pmf"] = np.asarray(est._pmf_predict(Xp, **kw))
@@ -489,12 +513,19 @@ def execute(plan, ctx):
                 else:
                     ctx.probe("unfitted_predict_did_not_raise_NotFittedError")
             else:
-                okd, d0, _ = ctx.call(observe, plan, est, fitted_on, plan["seeds"][1])
+                # the caller reuses one query buffer per data set; on some predict operations it edits the
+                # buffer in place (rows reversed) first - answers must follow the content, not the object
+                edits = ctx.scratch.setdefault("edit_decisions", kernel.DecisionList(plan.get("edits"), False))
+                if edits.next():
+                    reverse_probe_in_place(plan, fitted_on, ctx)
+                    ctx.fault("query_buffer_mutated_in_place")
+                    last_answers = {}
+                probe = shared_probe(plan, fitted_on, ctx)
+                okd, d0, _ = ctx.call(observe, plan, est, fitted_on, plan["seeds"][1], probe)
                 if op == "predict_none" and cls in ("TO", "EG", "EGR"):
-                    Xp, kw = probe_set(plan, fitted_on)
-                    ctx.call(est.predict, Xp, **kw)
+                    ctx.call(est.predict, probe[0], **probe[1])
                     ctx.fault("ambient_rng")
-                okd2, d1, site = ctx.call(observe, plan, est, fitted_on, plan["seeds"][1])
+                okd2, d1, site = ctx.call(observe, plan, est, fitted_on, plan["seeds"][1], probe)
                 if not (okd and okd2):
                     bad = d0 if not okd else d1
                     ctx.fail("C19.observe_raised", f"{cls}: predict-type call raised {type(bad).__name__}: {bad}",
@@ -504,6 +535,16 @@ def execute(plan, ctx):
                     ctx.fail("C19.predict_mutates", f"{cls}: repeating a predict-type call with the same seed changed the answer / fitted state "
                              f"({first_diff(d0, d1)})", sigbase)
                     return
+                # identity-insensitive expectation: the fresh reference estimator on a *copy* of the buffer
+                okr2, fresh2, _r, _s = reference(fitted_on, cloned)
+                if okr2 and not ctx.scratch.get("resynced_or_known"):
+                    okc, dref, _ = ctx.call(observe, plan, fresh2, fitted_on, plan["seeds"][1], copy_probe(probe))
+                    if okc and not same(d1, dref):
+                        known = ctx.fail("C19.predict_differs", f"{cls}: after history {hist} a predict-type call on the caller's (reused) query "
+                                         f"buffer differs from a fresh identically configured estimator's answer on a copy of it "
+                                         f"({first_diff(d1, dref)})", dict(sigbase, refit=nfits > 1))
+                        if not known:
+                            return
                 key = fitted_on
                 if key in last_answers and not same(last_answers[key], d1, tol=0):
                     ctx.fail("C19.predict_drift", f"{cls}: the same (X', seed) gave a different answer later in the history {hist}", sigbase)
@@ -571,6 +612,7 @@ def _resync(plan, ctx, k):
         do_fit(plan, fresh, k)
     ctx.clock.force_stall = False
     ctx.probe("resynchronised")
+    ctx.scratch["resynced_or_known"] = True
     return fresh
 
 
@@ -612,6 +654,8 @@ def shrink_candidates(plan):
     ops = p["ops"]
     if p.get("fresh"):
         yield mod(fresh=False)
+    if any(p.get("edits") or []):
+        yield mod(edits=[])
     if p.get("clock"):
         yield mod(clock=[])
     for size in (len(ops) // 2, 2, 1):
